@@ -91,7 +91,8 @@ def features(f):
         elif nt == op.POW:
             nonlinear = True
         elif nt == op.DIV:
-            if has_sym(n.arg(1)):
+            # a division by a non-constant, or by the literal zero ("can only happen in non-linear logics", formula.py Div)
+            if has_sym(n.arg(1)) or (n.arg(1).is_constant() and n.arg(1).constant_value() == 0):
                 nonlinear = True
     return feats, quant, nonlinear
 
@@ -158,6 +159,33 @@ def ground_factor_cases(tier):
             yield env, m.Equals(m.Function(f, [m.Times(a, f1)]), num(0)), "factors:%s:times-under-uf:%s" % (sort, ka)
 
 
+def flag_cases(rnd, tier):
+    """ENVIRONMENT-FLAGS family (harness/envflags.py): formulas built under every value of the flags, analysed under every
+    value; then a flag is flipped on the SAME environment and formulas sharing sub-terms with the analysed ones (and the
+    analysed ones again) are analysed."""
+    from . import envflags
+    for fb in envflags.combos():
+        for fa in envflags.combos():
+            env = Environment()
+            envflags.set_flags(env, fb)
+            fs = envflags.division_formulas(env)
+            g = FormulaGen(env, rnd, Config())
+            extra = [g.gen(rnd.choice(g.types), rnd.randint(1, 4)) for _ in range(2 if tier == "quick" else 12)]
+            envflags.set_flags(env, fa)
+            tag = "flags:built-%s:analysed-%s" % (envflags.label(fb), envflags.label(fa))
+            for f in fs + extra:
+                yield env, f, tag
+            # flip between two analyses on one environment
+            flipped = dict(fa, enable_div_by_0=not fa["enable_div_by_0"], enable_infix_notation=not fa["enable_infix_notation"])
+            envflags.set_flags(env, flipped)
+            m = env.formula_manager
+            bools = [f for f in fs if f.get_type().is_bool_type()]
+            for a, b in zip(bools, bools[1:]):
+                yield env, m.And(a, m.Not(b)), tag + ":then-" + envflags.label(flipped)
+            for f in fs[:4]:
+                yield env, f, tag + ":again-" + envflags.label(flipped)
+
+
 def run(chk, rnd, tier):
     env0 = Environment()
     n = 600 if tier == "quick" else 6000
@@ -173,10 +201,13 @@ def run(chk, rnd, tier):
             yield x
         for x in ground_factor_cases(tier):
             yield x
-    nshape = nfactor = 0
+        for x in flag_cases(rnd, tier):
+            yield x
+    nshape = nfactor = nflags = 0
     for env, f, fam in inputs():
         nshape += fam.startswith("sortshape")
         nfactor += fam.startswith("factors")
+        nflags += fam.startswith("flags")
         try:
             th = env.theoryo.get_theory(f)
             exp = "(Some (%s, th_dec %d%%N))" % ("true" if env.qfo.is_qf(f) else "false", code(th))
@@ -209,11 +240,14 @@ def run(chk, rnd, tier):
                 sorts = sorted(set(str(m.symbol_type()) for m in tocoq.topo([f]) if m.is_symbol()))
                 chk.violation({"kind": "input", "what": "%s does not enable %s" % (what, sorted(missing)),
                                "formula": f.serialize(), "node_types": kinds, "symbol_sorts": sorts, "family": fam,
+                               "flags_legend": "in a flags: family the three digits after built- / analysed- / then- / again- are enable_div_by_0, "
+                                               "enable_infix_notation, allow_empty_var_names of the Environment (1 = True)",
                                "repro": "pysmt.oracles.get_logic(<formula>) / env.theoryo.get_theory(<formula>)"},
                               key="detect:%s:%s" % (lg if lg is not None else "no-logic", ",".join(sorted(missing))))
                 break
     chk.cov.setdefault("correspondence", {})["detection_sort_shape_cases"] = nshape
     chk.cov["correspondence"]["detection_non_variable_factor_cases"] = nfactor
+    chk.cov["correspondence"]["detection_environment_flag_cases"] = nflags
     chk.sample({"kind": "detection", "formula": meta[0].serialize()[:300]})
     ok_def = ("Definition th_eqb (a b : theory) := t_eq a b.\n"
               "Definition ok (c : term * option (bool * theory)) : bool :=\n"
